@@ -308,7 +308,8 @@ def sanitiser_strength(rep: Report) -> dict[str, set[str]]:
     for r in returns:
         strength &= r
     # '&' must be replaced first when replace() chains are used
-    registered = any('app_template_filter' in norm(d) for d in fn.decorator_list)
+    from ..core import template_filters as _tf
+    registered = any(v[0] is fn or getattr(v[0], 'name', None) == fn.name for v in _tf(rep.repo, TAGS).values())
     if not registered:
         rep.fail('R05.0', construct, 'registered', 'xmlSafe is not registered as a template filter', fn)
     if '&' in strength:
@@ -322,12 +323,9 @@ def sanitiser_strength(rep: Report) -> dict[str, set[str]]:
     for f in sorted(INERT_FILTERS):
         if f in ('int', 'float', 'length'):
             continue
-        fnode = find_func(tree, f if f != 'uuid' else 'toUuid')
-        if fnode is None:
-            for n in tree.body:
-                if isinstance(n, ast.FunctionDef) and any(
-                        f"name='{f}'" in norm(d) or f'"{f}"' in norm(d) for d in n.decorator_list):
-                    fnode = n
+        from ..core import template_filters
+        regs = template_filters(rep.repo, TAGS)
+        fnode = regs[f][0] if f in regs else None
         if fnode is None:
             rep.fail('R05.0', f'{TAGS}::{f}', 'exists', f'filter {f} used as XML-inert vanished')
         else:
